@@ -513,7 +513,7 @@ ASYNC_LAYERS = ["recv", "recv_into", "endpoint-copy", "endpoint-buffered", "tls"
 
 
 def plan(tier: str, seed: int) -> list[dict]:
-    n = 8 if tier == "quick" else 200
+    n = 8 if tier == "quick" else 3000
     return [{"seed": seed * 1000 + k, "iters": n} for k in range(16)]
 
 
